@@ -254,7 +254,7 @@ class Machine:
 
     # ------------------------------------------------------- activations
     def activation(self, method: str, facts0: BoolFacts) -> list[PathResult]:
-        key = (method, frozenset(facts0.truth.items()), frozenset(facts0.null.items()))
+        key = (method,) + BoolFacts(dict(facts0.truth), dict(facts0.null), None, dict(facts0.alias), dict(facts0.eq), dict(facts0.ne)).key()
         if key in self.cache:
             return self.cache[key]
         g = self.graph(method)
@@ -387,6 +387,8 @@ class Machine:
 
         t = frozenset((k, v) for k, v in facts.truth.items() if ok(k) and isinstance(v, bool))
         n = frozenset((k, v) for k, v in facts.null.items() if ok(k))
+        # equality facts (state enums / mode strings) travel with the null-ness set
+        n = n | frozenset(("=" + k, v) for k, v in facts.eq.items() if ok(k)) | frozenset(("!" + k, v) for k, v in facts.ne.items() if ok(k))
         return t, n
 
     def explore(self, init_methods=("__init__", "connection_made")) -> None:
@@ -397,7 +399,7 @@ class Machine:
             nxt = []
             for f0 in starts:
                 for pr in self.activation(meth, f0):
-                    f = BoolFacts(*[dict(x) for x in self._project(pr.facts)])
+                    f = _facts_from(*self._project(pr.facts))
                     # a fresh transport is not closing
                     if meth == "connection_made":
                         f.truth[m.transport + ".is_closing()"] = False
@@ -421,7 +423,7 @@ class Machine:
             if self.n_states > 20000:
                 raise AnalysisError("protocol machine: state explosion")
             for entry in self._enabled(s):
-                facts0 = BoolFacts(dict(s.truth), dict(s.null))
+                facts0 = _facts_from(s.truth, s.null)
                 for pr in self.activation(entry, facts0):
                     self.n_activations += 1
                     s2 = self._apply(s, entry, pr, seen)
@@ -559,6 +561,16 @@ class Machine:
         return self.chain(g, pr.path[-1][0], "end")
 
     mw_callbacks: set[str] = set()
+
+
+def _facts_from(truth, null) -> BoolFacts:
+    f = BoolFacts(dict(truth), {k: v for k, v in null if not k.startswith(("=", "!"))})
+    for k, v in null:
+        if k.startswith("="):
+            f.eq[k[1:]] = v
+        elif k.startswith("!"):
+            f.ne[k[1:]] = v
+    return f
 
 
 def _unlink(cell) -> list:
